@@ -4,6 +4,7 @@ import Proofs.Lemmas.FortranKinds
 import Proofs.Lemmas.FortranLoop
 import Proofs.Lemmas.FortranWrapper
 import Proofs.Lemmas.FortranEval
+import Proofs.Lemmas.FortranText
 /-
 C07 — The Fortran back-end computes what the Python back-end computes.      (PARTIAL — see the end of this comment)
 
@@ -84,6 +85,41 @@ example : rewriteEquation (fun s => if s = "C" then some 2 else some 3)
     = some (['s','o','l','v','e','d','_','v','a','l','u','e','s','(','2',',',' ','i','n','d','e','x','-','1',')','+'] ++
             ['s','o','l','v','e','d','_','v','a','l','u','e','s','(','3',',',' ','i','n','d','e','x','+','1','2',')']) := by
   decide
+
+theorem renderExpr_map {α β : Type} (f : α → β) (atom : β → Int → List Char) (e : Expr α) :
+    renderExpr atom (e.map f) = renderExpr (fun a off => atom (f a) off) e := by
+  induction e with
+  | int n => rfl
+  | dec m e => rfl
+  | var a off => rfl
+  | neg x ih => simp [Expr.map, renderExpr, ih]
+  | bin op x y ihx ihy => simp [Expr.map, renderExpr, ihx, ihy]
+  | fn1 g x ih => simp [Expr.map, renderExpr, ih]
+  | fn2 g x y ihx ihy => simp [Expr.map, renderExpr, ihx, ihy]
+
+/-- **The rewrite on a whole equation is the renumbering of its tree.**  For an equation `LHS[t] = <rhs>` written in
+    the (fully parenthesised) concrete syntax, with every name an identifier known to the numbering `k`: the text the
+    regex rewrite produces is the same concrete syntax of the tree with every reference `NAME[t±j]` replaced by
+    `solved_values(k NAME, index±j)` — i.e. of `rhs.map k`.  This links the text-level code generator to the
+    tree-level statement `kind_safe_agree` is about. -/
+theorem rewrite_expression_text (num : String → Option Nat) (k : List Char → Nat)
+    (lhs : List Char) (rhs : Expr (List Char))
+    (hl : ValidName lhs ∧ num (String.ofList lhs) = some (k lhs))
+    (hr : ∀ p ∈ rhs.refs, ValidName p.1 ∧ num (String.ofList p.1) = some (k p.1)) :
+    rewriteEquation num (eqAtom lhs 0 ++ ([' ', '=', ' '] ++ renderExpr eqAtom rhs))
+      = some (fAtom (k lhs) 0 ++ ([' ', '=', ' '] ++ renderExpr fAtom (rhs.map k))) := by
+  rw [renderExpr_map]
+  have h1 := seg_expr num k (.var lhs 0) (by intro p hp; simp [Expr.refs] at hp; subst hp; exact hl)
+  have h2 := Seg.plain num [' ', '=', ' '] (by decide)
+  have h3 := seg_expr num k rhs hr
+  exact rewrite_of_seg num _ _ (h1.append (h2.append h3))
+
+/-- `C[t] = (C[t-1] + exp(X[t+2]))` with C ↦ 2, X ↦ 3. -/
+example : rewriteEquation (fun s => if s = "C" then some 2 else some 3)
+      (eqAtom ['C'] 0 ++ ([' ', '=', ' '] ++
+        renderExpr eqAtom (.bin .add (.var ['C'] (-1)) (.fn1 .exp (.var ['X'] 2)))))
+    = some (fAtom 2 0 ++ ([' ', '=', ' '] ++
+        renderExpr fAtom (.bin .add (.var 2 (-1)) (.fn1 .exp (.var 3 2))))) := by decide
 
 /-- With `index = t + 1` (after the template's normalisation of a non-positive `t`) the rewritten reference
     `solved_values(row0 + 1, index + k)` is the storage cell Python's `self._x[t + k]` denotes, for every offset
